@@ -49,6 +49,21 @@ use std::sync::{Arc, Mutex, RwLock};
 use std::time::{Duration, Instant};
 use tokio::sync::RwLock as AsyncRwLock;
 
+/// Crash / fault-injection point (deterministic-simulation seam). Expands to
+/// nothing unless the `verif-hooks` feature is enabled.
+#[cfg(feature = "verif-hooks")]
+macro_rules! vpoint {
+    ($name:expr, $path:expr) => {
+        if let Some(e) = crate::verif_hooks::point($name, $path) {
+            return Err(P2PError::Io(e));
+        }
+    };
+}
+#[cfg(not(feature = "verif-hooks"))]
+macro_rules! vpoint {
+    ($name:expr, $path:expr) => {};
+}
+
 /// Version of the encrypted key storage format
 const STORAGE_FORMAT_VERSION: u32 = 1;
 
@@ -792,6 +807,7 @@ impl EncryptedKeyStorageManager {
         let serialized_storage = postcard::to_stdvec(&storage)
             .map_err(|e| P2PError::Storage(StorageError::Database(e.to_string().into())))?;
 
+        vpoint!("keystore.before_tmp", &temp_path);
         {
             let mut file = OpenOptions::new()
                 .create(true)
@@ -799,14 +815,17 @@ impl EncryptedKeyStorageManager {
                 .truncate(true)
                 .open(&temp_path)
                 .map_err(P2PError::Io)?;
+            vpoint!("keystore.tmp_created", &temp_path);
 
             file.write_all(&serialized_storage).map_err(P2PError::Io)?;
 
             file.flush().map_err(P2PError::Io)?;
         }
+        vpoint!("keystore.tmp_written", &temp_path);
 
         // Atomic rename
         std::fs::rename(&temp_path, &self.storage_path).map_err(P2PError::Io)?;
+        vpoint!("keystore.after_rename", &self.storage_path);
 
         Ok(())
     }
